@@ -1,5 +1,5 @@
 From Coq Require Import Extraction ExtrOcamlBasic.
-From CAres.Legacy Require Import Rec Legacy Legacy_spec.
+From CAres.Legacy Require Import Rec Legacy Legacy_spec LegacyMem.
 Extraction Language OCaml.
 Extraction "../ocaml/gen/LegacyModel.ml"
   parse_addr_reply observe_addr spec_addr_reply
@@ -8,4 +8,6 @@ Extraction "../ocaml/gen/LegacyModel.ml"
   parse_txt_reply parse_txt_reply_ext parse_soa_reply
   spec_mx spec_srv spec_naptr spec_caa spec_uri spec_txt spec_soa
   is_malformed_status compat rr_type
-  parse_into_addrinfo addrinfo2hostent addrinfo2addrttl view_host.
+  parse_into_addrinfo addrinfo2hostent addrinfo2addrttl view_host
+  list_parser_mem mx_items srv_items naptr_items caa_items uri_items txt_items soa_mem ns_mem ptr_mem addr_reply_mem
+  free_data free_hostent.
